@@ -185,6 +185,38 @@ def unmerged(task):
     return n, viol
 
 
+def long_sequence(task):
+    """one long deterministic call sequence on one object (hundreds of calls): every array ever returned must keep its
+    bytes, every call must agree with a fresh object"""
+    N, m, init = task
+    lo, up = box("B1", N) if init == "B1" else ([-1] * N, [1] * N)
+    ev = Evolvent(lo, up, N, m)
+    fresh = Evolvent(lo, up, N, m)
+    lo_f, up_f = np.array(lo, dtype=float), np.array(up, dtype=float)
+    kept = []
+    msgs = []
+    n = 0
+    for i in range(400):
+        x = ((i * 0.6180339887498949) % 1.0) if i % 9 else (i % 2) * 1.0
+        y = ev.GetImage(x)
+        n += 1
+        if not np.array_equal(y, fresh.GetImage(x)):
+            msgs.append(f"N={N} m={m}: call {i + 1} of a long sequence, GetImage({x!r}) = {y.tolist()}, a fresh object gives "
+                        f"{fresh.GetImage(x).tolist()}")
+            break
+        kept.append((i, y, y.tobytes()))
+        if i % 5 == 0:
+            q = lo_f + (up_f - lo_f) * ((i * 0.37) % 1.0)
+            if ev.GetInverseImage(np.array(q)) != fresh.GetInverseImage(np.array(q)):
+                msgs.append(f"N={N} m={m}: call {i + 1} of a long sequence, GetInverseImage({q.tolist()}) differs from a fresh object")
+                break
+        bad = next(((j, a) for j, a, b in kept if a.tobytes() != b), None)
+        if bad:
+            msgs.append(f"N={N} m={m}: the array returned by call {bad[0] + 1} of a long sequence was changed by call {i + 1}")
+            break
+    return n, msgs
+
+
 def run(ctx):
     res = Result()
     th = ctx.thorough
@@ -203,6 +235,11 @@ def run(ctx):
     for t, (n, viol) in zip(tasks, pmap(unmerged, tasks)):
         seqs += n
         res.merge_violations(viol)
+    ltasks = list(cfgs)
+    for t, (n, msgs) in zip(ltasks, pmap(long_sequence, ltasks)):
+        seqs += 1
+        for msg in msgs:
+            res.add_violation(dict(driver="long", N=t[0], m=t[1], init=t[2], message=msg, sig={}))
     res.cov = dict(
         states=states, transitions=trans, traces_validated_against_impl=seqs, evaluations=seqs + trans,
         distinct_nontrivial=seqs,
@@ -218,5 +255,7 @@ def run(ctx):
 
 
 def replay(rec):
+    if rec.get("driver") == "long":
+        return long_sequence((rec["N"], rec["m"], rec.get("init", "B1")))[1]
     msgs, _ = execute(rec["N"], rec["m"], rec["seq"], alphabet(rec["N"]), rec.get("init", "B1"))
     return msgs
